@@ -63,6 +63,22 @@ type plan struct {
 	Exit     string // ok, mw-err, handler-err, handler-panic, scope-fail
 	MwFailAt int
 	MwWrites bool // mw-err: the failing middleware has answered the request itself (status 401) before it returns its error
+	PanicVal int  // handler-panic: what the handler panics with (see panicValue)
+}
+
+// panicValue: handlers do not only panic with strings. http.ErrAbortHandler is the documented
+// way to abort a response in net/http (httputil.ReverseProxy raises it); frameworks and
+// middlewares tend to give it special treatment.
+func panicValue(kind int, id string) any {
+	switch kind {
+	case 1:
+		return http.ErrAbortHandler
+	case 2:
+		return fmt.Errorf("handler panic %s", id)
+	case 3:
+		return struct{ Code int }{500}
+	}
+	return "handler panic " + id
 }
 
 type reqLog struct {
@@ -229,7 +245,7 @@ func (w *webWorld) onHandler(id string, ctx context.Context, sc godi.Scope) erro
 	case "handler-err":
 		return errors.New("handler failed")
 	case "handler-panic":
-		panic("handler panic " + id)
+		panic(panicValue(w.plan(id).PanicVal, id))
 	case "client-gone":
 		clientGone(id, sc)
 	}
@@ -250,7 +266,7 @@ func (w *webWorld) onCtl(id string, ctl *Ctl) error {
 	case "handler-err":
 		return errors.New("handler failed")
 	case "handler-panic":
-		panic("handler panic " + id)
+		panic(panicValue(w.plan(id).PanicVal, id))
 	case "client-gone":
 		if ctl != nil {
 			clientGone(id, ctl.S)
@@ -885,6 +901,9 @@ func TestC16Web(t *testing.T) {
 				} else {
 					pl.MwFailAt = rapid.IntRange(0, cfg.NMw-1).Draw(rt, "goneAt")
 				}
+			}
+			if pl.Exit == "handler-panic" {
+				pl.PanicVal = rapid.IntRange(0, 3).Draw(rt, "panicVal")
 			}
 			if pl.Exit == "mw-err" {
 				pl.MwFailAt = rapid.IntRange(0, 3).Draw(rt, "mwFailAt")
